@@ -102,19 +102,23 @@ Fixpoint lookup (k : list Z) (m : list (list Z * list Z)) : option (list Z) :=
   | (k', v) :: r => if zlist_eqb k' k then Some v else lookup k r
   end.
 
-(* the `while True` loop: -> (new_name, next id) *)
-Fixpoint fresh_name (fuel : nat) (id : Z) : result (list Z * Z) :=
+(* the `while True` loop: -> (new_name, next id).  A candidate is taken when it is neither a
+   preserved name nor (when a keep file was read) one of the keep-file names *)
+Fixpoint fresh_name (cfg : config) (fuel : nat) (id : Z) : result (list Z * Z) :=
   match fuel with
   | O => Err OutOfFuel
   | S f =>
     new_name <- name_for_id id ;;
-    if negb (in_names new_name preserved_names) then Ok (new_name, id + 1)
-    else fresh_name f (id + 1)
+    if negb (in_names new_name preserved_names) && negb (in_keep_file cfg new_name)
+    then Ok (new_name, id + 1)
+    else fresh_name cfg f (id + 1)
   end.
 
 (* enough for every state with next_id >= 0 (fresh_name_total): at most
-   len(PRESERVED_NAMES) candidates can be skipped *)
-Definition fresh_fuel : nat := S (length preserved_names).
+   len(PRESERVED_NAMES) + len(names_to_keep) candidates can be skipped *)
+Definition keep_list (cfg : config) : list (list Z) :=
+  match names_to_keep cfg with Some ks => ks | None => [] end.
+Definition fresh_fuel (cfg : config) : nat := S (length preserved_names + length (keep_list cfg)).
 
 Definition get_short_name (cfg : config) (st : state) (name : list Z) : result (state * list Z) :=
   if keep_all cfg then Ok (st, name)
@@ -123,7 +127,7 @@ Definition get_short_name (cfg : config) (st : state) (name : list Z) : result (
   else match lookup name (name_map st) with
        | Some v => Ok (st, v)
        | None =>
-         '(new_name, id') <- fresh_name fresh_fuel (next_id st) ;;
+         '(new_name, id') <- fresh_name cfg (fresh_fuel cfg) (next_id st) ;;
          Ok ({| name_map := (name, new_name) :: name_map st; next_id := id' |}, new_name)
        end.
 
@@ -148,13 +152,12 @@ Definition observed (names outs : list (list Z)) (n o : list Z) : Prop := In (n,
 
 (* ---------- which configuration reaches the factory from the command line ----------
    LuaMinifyTokenWriter.__init__ builds the factory from its writer args with defaults
-   (mtw_factory_src).  tool.luamin passes both options (luamin_writer_src).  build.do_build sets
-   lua_writer_args only in its --lua-format branch, so with --lua-minify the writer gets args=None
-   and every option falls back to its default (build_writer_selection_src): suspected defect S3. *)
+   (mtw_factory_src).  tool.luamin passes both options (luamin_writer_src); so does
+   build.do_build in its --lua-minify branch (build_writer_selection_src). *)
 Definition luamin_config (keep_all_names : bool) (keep_file : option (list Z)) : config :=
   mk_config keep_all_names keep_file.
 Definition build_minify_config (keep_all_names : bool) (keep_file : option (list Z)) : config :=
-  mk_config false None.
+  mk_config keep_all_names keep_file.
 
 (* the names get_short_name must leave as written, spelled out over the regenerated tables *)
 Definition is_kept (cfg : config) (n : list Z) : Prop :=
